@@ -105,6 +105,7 @@ def runSession (lines : List String) : String :=
       | ["guard-table"] => Small.guardTable
       | ["facade"] => Small.replayFacade rest
       | ["gate"] => Small.replayGate rest
+      | ["adapter"] => Small.replayAdapter rest
       | ["reserve"] => ReserveConf.replayReserve rest
       | "cache" :: hd => CacheConf.replayCache hd rest
       | ["kernel", "wait"] => Small.replayWait rest
